@@ -385,6 +385,12 @@ impl SocksResponse {
     }
     async fn read_v4<IO: RW>(socket: &mut IO) -> Result<Self, Error> {
         let cmd = socket.read_u8().await.context("read cmd")?;
+        // map v4 result codes to the v5 codes used everywhere else, the inverse of write_v4
+        let cmd = match cmd {
+            90 => SOCKS_REPLY_OK,
+            91 => SOCKS_REPLY_GENERAL_FAILURE,
+            x => x,
+        };
         let dport = socket.read_u16().await.context("read port")?;
         let dst = socket.read_u32().await.context("read dst")?;
         let target = (dst, dport).into();
